@@ -16,7 +16,7 @@ from ..run import CaseResult, Violation, case_hash, open_ids
 ID = "C16"
 LEVEL = "exploration"
 RULE = (
-    "Hypothesis-generated cases of 1-4 steps; a step = one raw RFC 5322/MIME message built byte by byte (classes: plain, "
+    "Hypothesis-generated cases of 1-3 (quick) / 1-4 (thorough) steps; a step = one raw RFC 5322/MIME message built byte by byte (classes: plain, "
     "rich header sets [quoted specials, RFC 2047 words, raw 8-bit, folded/long/duplicate/empty fields], QP/base64/8-bit "
     "leaves, multipart up to depth 3 with preamble/epilogue/missing closing delimiter/header-less parts, message/rfc822 "
     "at top level or nested, empty body, no blank line, missing final newline, LF or CRLF endings) or a file of the "
@@ -58,7 +58,7 @@ def strategy(tier, shard, nshards):
 def budget(tier):
     if tier == "quick":
         return {"examples": 90, "shards": 16, "guard_s": 900}
-    return {"examples": 1800, "shards": 16, "guard_s": 7200}
+    return {"examples": 3000, "shards": 16, "guard_s": 7200}
 
 
 # ------------------------------------------------------------ own analysis
@@ -599,9 +599,7 @@ def execute(trace) -> CaseResult:
             sent = raw
         else:
             disk = stp.get("disk", "lf")
-            if "fixture" in stp and disk != "mh":
-                data = raw  # fixture files are stored exactly as they are
-            elif disk == "mh":
+            if disk == "mh":
                 w.deliver("dlv", [raw], unseen=True)
                 data = None
             elif disk == "crlf":
@@ -651,8 +649,6 @@ def execute(trace) -> CaseResult:
         pfirst, lost1b = await battery_partials(n, partials)
         second, lost2 = await battery(n, secs, partials)
         first.update(pfirst)
-        if not s.alive and not sess().alive:
-            raise Blocked("C06", "connection lost")
         if lost1 or lost2 or lost1b:
             labels.add("section-refused")
             tr["refused"] = sorted(set(lost1 + lost2 + lost1b))[:6]
